@@ -252,7 +252,9 @@ def obligations(tier: str) -> List[dict]:
                     'need_marks': marks or []})
 
     if tier == 'quick':
-        add('h_format_parse', '(F) format/parse', 300, ['empty-node'], n=1)
+        for ii in range(len(INDENTS)):
+            add('h_format_parse', '(F) format/parse', 300,
+                ['empty-node'] if ii == 0 else [], n=1, indent=ii)
         for ii in range(len(INDENTS)):
             add('h_format_parse', '(F) format/parse', 400,
                 ['compact-multiline'] if ii == 1 else [], n=2, indent=ii,
